@@ -18,7 +18,9 @@ import (
 
 // claim-type productions: otherwise valid, honestly signed tokens whose claims have unexpected types
 var typeProductions = []string{"nonce-number", "nonce-array", "nonce-object", "nonce-null", "nonce-bool", "aud-number", "aud-object", "aud-mixed-array",
-	"exp-string", "exp-huge", "exp-negative", "iat-object", "claims-array", "header-array", "header-crit"}
+	"exp-string", "exp-huge", "exp-negative", "iat-object", "claims-array", "header-array", "header-crit",
+	// further standard claims (OIDC Core 2) carrying a JSON value of another type than the specified one
+	"azp-array", "azp-object", "auth_time-array", "auth_time-object", "sub-object", "iss-array", "amr-string", "acr-object", "iat-string", "nbf-array"}
 
 var byzProductions = []string{
 	"alg-none", "alg-none-caps", "hs256-pubkey-jwk", "hs256-pubkey-pem", "foreign-key-same-kid", "foreign-key-other-kid", "foreign-key-no-kid",
@@ -225,6 +227,18 @@ func byzantineAnswer(p *IdP, ans map[string]any, ch *chainRec, login bool) {
 	case "iat-object":
 		c := clone()
 		c["iat"] = map[string]any{}
+		forged = signed(c)
+	case "azp-array", "azp-object", "auth_time-array", "auth_time-object", "sub-object", "iss-array", "amr-string", "acr-object", "iat-string", "nbf-array":
+		c := clone()
+		name, typ, _ := strings.Cut(prod, "-")
+		switch typ {
+		case "array":
+			c[name] = []any{p.ClientID, "x"}
+		case "object":
+			c[name] = map[string]any{"v": p.ClientID}
+		default:
+			c[name] = "1999-12-31"
+		}
 		forged = signed(c)
 	case "claims-array":
 		forged = parts[0] + "." + b64([]byte("[1,2,3]")) + "." + parts[2]
